@@ -34,6 +34,8 @@ def BOUND(tier):
 
 
 def cases(tier):
+    yield ("readers", "csv")
+    yield ("readers", "netcdf")
     for cmd in SIG.DATA_COMMANDS:
         fz = SIG.input_fuzz(cmd)
         dts0 = ("float",) if fz == "fz" else ("float", "int")
@@ -52,12 +54,90 @@ def cases(tier):
                             yield (cmd, n, shape, dt, pi, -1)
 
 
+def _run_readers(case):
+    """the two readers create the missing cells: cells missing in the file (CSV: equal to MissingVal; NetCDF: masked by _FillValue) must be
+    missing in the result under every combination of the optional read parameters, and the number stored beneath them (the fill
+    value) must not influence any other cell"""
+    import os
+
+    from .. import snapshot
+    from . import c17, c18
+
+    _, lib = case
+    work = snapshot.scratch_dir("c03r_")
+    viols, outcomes = [], {}
+    evals = judged = nontriv = 0
+    sample = None
+    try:
+        if lib == "netcdf":
+            grid = (2, 2)
+            vals = [0.5, -0.25, 1.0, -1.0]
+            for m in range(16):
+                miss = [bool(m >> i & 1) for i in range(4)]
+                per_fill = {}
+                for fillv in (-9999.0, 12345.0):
+                    c18._make_template(os.path.join(work, "in.nc"), grid, {"v": ("f8", vals, miss if m else None, fillv)})
+                    for dtype in c18.DTYPES:
+                        for mv in (None, 12345, -9999, vals[0], 777):
+                            if mv == fillv:
+                                continue
+                            res = c18._eems_read(work, "in.nc", "v", dtype, mv)
+                            evals += 1
+                            tag = {"reader": "netcdf", "file_missing": miss, "fill_value": fillv, "DataType": dtype, "MissingValue": mv}
+                            sample = tag
+                            if res[0] != "ok":
+                                outcomes["netcdf:err"] = outcomes.get("netcdf:err", 0) + 1
+                                continue
+                            judged += 1
+                            nontriv += 1 if m else 0
+                            got = numpy.ma.getmaskarray(res[1]).ravel().tolist()
+                            lost = [i for i in range(4) if miss[i] and not got[i]]
+                            if lost:
+                                viols.append(V("C03:netcdf.EEMSRead:missing-lost", "cell %d is missing in the file but present (%r) in the result (DataType %r, MissingValue %r)" % (
+                                    lost[0], numpy.ma.getdata(res[1]).ravel()[lost[0]], dtype, mv), **tag))
+                            key = (dtype, mv)
+                            cells = [None if g else float(x) for g, x in zip(got, numpy.ma.getdata(res[1]).ravel().tolist())]
+                            if key in per_fill and per_fill[key] != cells and mv not in (-9999, 12345):
+                                viols.append(V("C03:netcdf.EEMSRead:payload-leak", "result depends on the fill value stored beneath missing cells: %r vs %r" % (per_fill[key], cells), **tag))
+                            per_fill.setdefault(key, cells)
+                            outcomes["netcdf:ok"] = outcomes.get("netcdf:ok", 0) + 1
+        else:
+            col = [1.5, -9999.0, 0.25, 5.0]
+            for m in range(16):
+                cells = [(-9999.0 if m >> i & 1 else col[i]) if i != 1 or True else col[i] for i in range(4)]
+                cells = [(-9999.0 if m >> i & 1 else (col[i] if col[i] != -9999.0 else 2.0)) for i in range(4)]
+                text = c17._text(["A", "B"], [[a, 7.0] for a in cells])
+                with open(os.path.join(work, "t.csv"), "w", newline="") as f:
+                    f.write(text)
+                for dt in (None, "Float", "Integer") if all(float(c) == int(c) for c in cells) else (None, "Float"):
+                    res = c17._read(work, "t.csv", "A", -9999, dt)
+                    evals += 1
+                    tag = {"reader": "csv", "file": text, "DataType": dt}
+                    sample = tag
+                    if res[0] != "ok":
+                        continue
+                    judged += 1
+                    nontriv += 1 if m else 0
+                    got = numpy.ma.getmaskarray(res[1]).tolist()
+                    want = [bool(m >> i & 1) for i in range(4)]
+                    if got != want:
+                        viols.append(V("C03:csv.EEMSRead:%s" % ("missing-lost" if any(w and not g for w, g in zip(want, got)) else "missing-extra"),
+                                       "missing cells %r, file has MissingVal at %r" % (got, want), **tag))
+                    outcomes["csv:ok"] = outcomes.get("csv:ok", 0) + 1
+    finally:
+        import shutil
+        shutil.rmtree(work, ignore_errors=True)
+    return {"evals": max(evals, 1), "nontrivial": nontriv, "judged": judged, "viols": viols[:20], "outcomes": outcomes, "sample": sample}
+
+
 def _vals(cmd, dt, n, size):
     base = VAL_FZ if SIG.input_fuzz(cmd) == "fz" else (VAL_INT if dt == "int" else VAL_NF)
     return [[base[(i * size + j) % len(base)] for j in range(size)] for i in range(n)]
 
 
 def run(case):
+    if case[0] == "readers":
+        return _run_readers(tuple(case))
     cmd, n, shape, dt, pi, hi = case[0], case[1], tuple(case[2]), case[3], case[4], case[5]
     size = int(numpy.prod(shape))
     params = D.presets_small(cmd, n)[pi]
